@@ -69,6 +69,21 @@ func c08Schnorr(t *rapid.T, ev *evProp, gi *GroupInfo) {
 		x = SVal{S: g.Scalar().One(), V: big.NewInt(1), Class: "one"}
 	}
 	pub := g.Point().Mul(x.S, nil)
+	if !gi.PrimeOrder {
+		// full-group curves (cofactor 8, Base() generates the whole group): a secret such as 4l gives a
+		// public key of order 2, under which sB = R + hA holds for every message whose challenge has the
+		// right parity.  Such small-order keys are not key pairs of the scheme (honest generation hits
+		// one with probability 8/|G|); replace them.
+		p8 := g.Point().Set(pub)
+		for i := 0; i < 3; i++ {
+			p8 = g.Point().Add(p8, p8)
+		}
+		if p8.Equal(nullPoint(gi)) {
+			ev.Assume("schnorr on full-group (cofactor 8) curves: a secret whose public key has order dividing 8 is replaced by 1 (degenerate key)")
+			x = SVal{S: g.Scalar().One(), V: big.NewInt(1), Class: "one"}
+			pub = g.Point().Mul(x.S, nil)
+		}
+	}
 	msg := genMsg(t, 4096)
 	ctx := fmt.Sprintf("schnorr group=%s x=%s |msg|=%d msg=%.40x", gi.Name, x, len(msg), msg)
 	key := func(w string) string { return fmt.Sprintf("C08/schnorr/%s/%s", gi.Name, w) }
